@@ -49,16 +49,16 @@ def build_dir():
     return d, ["-modfile=" + os.path.join(d, "alt.mod")]
 
 
-def binary(pkg, race):
+def binary(pkg, race, fuzz=False):
     d, _ = build_dir()
-    return os.path.join(d, pkg + (".race" if race else "") + ".test")
+    return os.path.join(d, pkg + (".race" if race else "") + (".fuzz" if fuzz else "") + ".test")
 
 
-def build(pkg, race):
+def build(pkg, race, fuzz=None):
     d, extra = build_dir()
     os.makedirs(d, exist_ok=True)
-    out = binary(pkg, race)
-    cmd = ["go", "test", "-c", "-tags", "verif"] + extra + (["-race"] if race else []) + ["-o", out, PKGS[pkg]]
+    out = binary(pkg, race, bool(fuzz))
+    cmd = ["go", "test", "-c", "-tags", "verif"] + extra + (["-race"] if race else []) + (["-fuzz=" + fuzz] if fuzz else []) + ["-o", out, PKGS[pkg]]
     t0 = time.time()
     p = subprocess.run(cmd, cwd=ROOT, env=GOENV, stdout=subprocess.PIPE, stderr=subprocess.STDOUT, text=True)
     if p.returncode != 0:
@@ -111,8 +111,29 @@ def unit_of_test(prop, test):
     return None
 
 
+def replay_fuzz(prop, path, workdir, idx):
+    """a saved native-fuzz crasher: fuzz-<FuzzName>-<hash>; re-run as a seed of that fuzz function"""
+    name = os.path.basename(path).split("-")[1]
+    u = unit_of_test(prop, name)
+    if u is None:
+        return "error", "", "no unit for fuzz target %r" % name
+    d = os.path.join(workdir, "fuzzreplay-%d" % idx)
+    os.makedirs(os.path.join(d, "testdata", "fuzz", name), exist_ok=True)
+    shutil.copy(path, os.path.join(d, "testdata", "fuzz", name, os.path.basename(path)))
+    env = dict(GOENV, VERIF_OUT=os.path.join(workdir, "out"), VERIF_TMP=os.path.join(workdir, "tmp"), VERIF_ROOT=ROOT)
+    logpath = os.path.join(d, "replay.log")
+    rc, to = run_proc([binary(u["pkg"], False), "-test.run", "^" + name + "$", "-test.count=1", "-test.timeout=300s"], env, logpath, 330)
+    if rc == 0:
+        return "pass", "", ""
+    if to:
+        return "error", "", "timeout"
+    return "fail", "", tail(logpath, 12).replace("\n", " | ")
+
+
 def replay_one(prop, path, workdir, idx):
     """returns (status, sig, msg): status in pass|fail|error"""
+    if os.path.basename(path).startswith("fuzz-"):
+        return replay_fuzz(prop, path, workdir, idx)
     try:
         ff = json.load(open(path))
     except Exception as e:  # noqa
@@ -240,12 +261,17 @@ def check(prop, tier):
             if not build(pkg, race):
                 merge_evidence(prop, tier, seed, outdir, time.time() - t0, 0, ["build failed"])
                 return 2
+        for u in spec["units"]:
+            if u.get("kind") == "fuzz" and u.get(tier, 0):
+                if not build(u["pkg"], False, u["test"]):
+                    merge_evidence(prop, tier, seed, outdir, time.time() - t0, 0, ["build failed"])
+                    return 2
         # ---- replay tier
         findings = [f for f in load_findings() if f.get("property") == prop]
         open_by_replay = {os.path.join(ROOT, f["replay"]): f for f in findings if f.get("status") == "open" and f.get("replay")}
         rdir = os.path.join(ROOT, "replays", prop)
         files = sorted(os.path.join(rdir, f) for f in os.listdir(rdir)) if os.path.isdir(rdir) else []
-        files = [f for f in files if f.endswith(".json")]
+        files = [f for f in files if f.endswith(".json") or os.path.basename(f).startswith("fuzz-")]
         n_replayed = 0
         with cf.ThreadPoolExecutor(max_workers=NCPU) as ex:
             futs = {ex.submit(replay_one, prop, f, workdir, i): f for i, f in enumerate(files)}
@@ -272,6 +298,16 @@ def check(prop, tier):
             n = u.get(tier, u.get("quick", 0))
             if not n:
                 continue
+            if u.get("kind") == "fuzz":
+                fdir = os.path.join(workdir, "fuzz-" + u["test"])
+                os.makedirs(fdir, exist_ok=True)
+                ft = u.get("fuzztime", "120s")
+                env = dict(GOENV, VERIF_OUT=outdir, VERIF_TMP=os.path.join(workdir, "tmp", u["test"]), VERIF_ROOT=ROOT)
+                cmd = [binary(u["pkg"], False, True), "-test.run", "^$", "-test.fuzz", "^" + u["test"] + "$", "-test.fuzztime", ft,
+                       "-test.fuzzcachedir", os.path.join(fdir, "cache"), "-test.parallel", str(u.get("workers", NCPU)), "-test.timeout", "0"]
+                secs = int(re.sub(r"[^0-9]", "", ft) or "120")
+                jobs.append((u, 0, 0, cmd, env, os.path.join(fdir, "fuzz.log"), secs * 3 + 300))
+                continue
             shards = u.get("shards_" + tier, 4 if tier == "quick" else NCPU)
             if u.get("kind", "rapid") == "rapid":
                 shards = max(1, min(shards, n))
@@ -291,14 +327,39 @@ def check(prop, tier):
                     if u.get("steps"):
                         cmd += ["-rapid.steps=%d" % u["steps"]]
                 jobs.append((u, i, per, cmd, env, os.path.join(workdir, "%s-%d.log" % (u["test"], i)), timeout + 60))
-        with cf.ThreadPoolExecutor(max_workers=NCPU) as ex:
-            futs = {ex.submit(run_proc, j[3], j[4], j[5], j[6]): j for j in jobs}
-            for fut in cf.as_completed(futs):
-                u, i, per, cmd, env, logpath, _ = futs[fut]
-                rc, timed_out = fut.result()
+        def results():
+            plain = [j for j in jobs if j[0].get("kind") != "fuzz"]
+            with cf.ThreadPoolExecutor(max_workers=NCPU) as ex:
+                futs = {ex.submit(run_proc, j[3], j[4], j[5], j[6]): j for j in plain}
+                for fut in cf.as_completed(futs):
+                    yield futs[fut], fut.result()
+            for j in jobs:  # native fuzz campaigns use every core themselves: one after the other, after the rest
+                if j[0].get("kind") == "fuzz":
+                    yield j, run_proc(j[3], j[4], j[5], j[6])
+
+        if True:
+            for (u, i, per, cmd, env, logpath, _), (rc, timed_out) in results():
                 failfile = os.path.join(outdir, "fail-%s-%d.json" % (u["test"], i))
                 curfile = os.path.join(outdir, "current-%s-%d.json" % (u["test"], i))
                 text = open(logpath, errors="replace").read()
+                if u.get("kind") == "fuzz":
+                    m = re.findall(r"execs: (\d+) .*?\(total: (\d+)\)", text)
+                    execs, corpus = (int(m[-1][0]), int(m[-1][1])) if m else (0, 0)
+                    json.dump(dict(test=u["test"], property=prop, rule="native go fuzzing (coverage-guided, %s, seed corpus from the generators); oracle inside the target; corpus entries = coverage-distinct inputs" % u.get("fuzztime"),
+                                   shard=0, evaluations=execs, nontrivial_hashes=[], labels={}, samples=[], known_finding_hits={},
+                                   extra={"fuzz_execs:" + u["test"]: execs, "fuzz_corpus:" + u["test"]: corpus}, exhaustive=False, space=0, wall_s=0),
+                              open(os.path.join(outdir, "ev-%s-0.json" % u["test"]), "w"))
+                    cdir = os.path.join(os.path.dirname(logpath), "testdata", "fuzz", u["test"])
+                    crashers = sorted(os.listdir(cdir)) if os.path.isdir(cdir) else []
+                    if rc != 0 and crashers:
+                        for cf_ in crashers:
+                            dst = os.path.join(ROOT, "replays", prop, "fuzz-%s-%s" % (u["test"], cf_))
+                            os.makedirs(os.path.dirname(dst), exist_ok=True)
+                            shutil.copy(os.path.join(cdir, cf_), dst)
+                            violations.append((dst, "native fuzz crasher: " + tail(logpath, 14)))
+                    elif rc != 0:
+                        inconclusive.append("%s: fuzzing ended rc=%s timeout=%s\n%s" % (u["test"], rc, timed_out, tail(logpath, 20)))
+                    continue
                 if rc == 0:
                     if u.get("kind", "rapid") == "rapid":
                         m = re.search(r"\[rapid\] OK, passed (\d+) tests", text)
